@@ -4,6 +4,8 @@ import (
 	"fmt"
 	"go/ast"
 	"go/types"
+	"golang.org/x/tools/go/packages"
+	"strings"
 
 	"rocheck/internal/check"
 	"rocheck/internal/model"
@@ -468,7 +470,7 @@ func C12() *check.Property {
 		Title:    "Pipelines are reusable recipes: subscriptions and operator values independent",
 		Patterns: cat(CorePatterns, PluginPkgs, IOPluginPkgs, []string{PromPkg}, RatePkgs),
 		Scope:    append([]string{ro}, IOPluginPkgs...),
-		Rules:    []check.Rule{ruleStateLevel(), ruleLazySource(), ruleSubscribeMultiplicity(), ruleFreshPerApplication(), ruleObservableParamUsed(), ruleBuildTimeState(), ruleHeadTailDisjoint()},
+		Rules:    []check.Rule{ruleStateLevel(), ruleLazySource(), ruleSubscribeMultiplicity(), ruleFreshPerApplication(), ruleObservableParamUsed(), ruleBuildTimeState(), ruleHeadTailDisjoint(), ruleNoHotInCold()},
 		Explanation: "Static discipline check (AST + types). Operators are closures at three levels: constructor (once per operator value), application literal func(source) (once per pipeline) " +
 			"and subscribe closure (once per subscription). STATE-LEVEL proves that no write inside a deeper level targets a variable declared at an outer level, so every subscription starts from fresh state and " +
 			"applications do not influence each other; LAZY-SOURCE proves no Subscribe/Connect/Collect runs outside a subscribe closure; SUBSCRIBE-MULTIPLICITY and FRESH-PER-APPLICATION cover at-most-once subscription of " +
@@ -476,7 +478,7 @@ func C12() *check.Property {
 		NotDecided:  "state hidden behind pointers/maps inside user-supplied arguments; equality of the notifications of two subscriptions (follows from fresh state for deterministic sources, not checked).",
 		Assumptions: []string{"go/types resolves every identifier (load is fail-closed)", "hot constructs are exactly those the property lists (Share/ShareReplay via ShareWithConfig, subjects, connectables)"},
 		Floors:      map[string]int{"closures_scanned": 300, "application_literals": 100, "param_observables_subscribed": 90},
-		Controls:    map[string]string{"zz_verif_controls_c12.go": roControl(controlsC12 + controlsHeadTail)},
+		Controls:    map[string]string{"zz_verif_controls_c12.go": roControl(controlsC12 + controlsHeadTail + controlsNoHotInCold)},
 	}
 }
 
@@ -512,6 +514,32 @@ func statefulCreation(m *model.Model, info *types.Info, v *types.Var) string {
 			return "a Subscriber"
 		case cl.Pkg() != nil && cl.Pkg().Path() == ro && len(cl.Name()) > 7 && cl.Name()[:3] == "New" && cl.Name()[len(cl.Name())-7:] == "Subject":
 			return "a Subject"
+		}
+		// a hot observable: the value is built (here or in the repository helpers the expression calls) with a sharing
+		// operator, a connectable or a subject — one running execution joined by every subscription that uses it
+		var pkgOf *packages.Package
+		for _, p := range m.Pkgs {
+			if p.TypesInfo == info {
+				pkgOf = p
+			}
+		}
+		if pkgOf != nil && model.IsNamed(v.Type(), m.Obj.Observable) {
+			hot := ""
+			findCallTransitive(m, pkgOf, d.Expr, func(q *packages.Package, c2 *ast.CallExpr) bool {
+				c2l := model.Callee(q.TypesInfo, c2)
+				if c2l == nil || c2l.Pkg() == nil || c2l.Pkg().Path() != ro {
+					return false
+				}
+				n := c2l.Name()
+				if strings.HasPrefix(n, "Share") || strings.HasPrefix(n, "NewConnectableObservable") || (strings.HasPrefix(n, "New") && strings.HasSuffix(n, "Subject")) {
+					hot = n
+					return true
+				}
+				return false
+			}, 3)
+			if hot != "" {
+				return "a hot observable (built with " + hot + ")"
+			}
 		}
 	}
 	return ""
